@@ -1,1 +1,260 @@
--- property theorems of C02 (not built yet)
+/-
+  C02 — emission / direct-image spectra equal the layered thermal integral.
+  Theorems about `TaurexModel/Emission.lean` (the definitions `driver_c02` executes), over the real carrier.
+  `Row`-level statements quantify over arbitrary layer rows that satisfy `Chain` (consecutive layers share an
+  interface) and `RowsOk` (optical depth grows downwards, the clamp only drops transmittances of depth ≥ 10);
+  the `full model` section proves that the rows `evaluate_emission` builds satisfy both, and restates the results
+  for `intensity` / `fluxCol` / `eclipse`.
+-/
+import Proofs.C02Full
+
+namespace Taurex.C02
+open Taurex.Emission
+
+/-! ### quadrature, Planck function, direct-image scaling -/
+
+/-- Gauss–Legendre nodes/weights mapped to [0,1]: `Σ w μ = 1/2` (what `path_integral` multiplies `I` with),
+    for any node count, from the two moment conditions of `leggauss`. -/
+theorem quad_half (xs wts : List ℝ) (hlen : xs.length = wts.length) (hx : ∀ x ∈ xs, -1 < x)
+    (h0 : wts.sum = 2) (h1 : ((xs.zip wts).map (fun p => p.2 * p.1)).sum = 0) :
+    angleSum ((xs.zip wts).map (fun p => (1, wOf p.2, muInvOf p.1))) = 1 / 2 := by
+  rw [angleSum_eq, List.map_map]
+  have hs : ((xs.zip wts).map (fun p => p.2)).sum = 2 := by
+    have : (xs.zip wts).map (fun p => p.2) = wts := by
+      have := List.map_snd_zip (l₁ := xs) (l₂ := wts) (by omega)
+      simpa using this
+    rw [this, h0]
+  have hq := quad_sum (xs.zip wts) (by
+    intro p hp
+    have := hx p.1 (List.of_mem_zip hp).1
+    linarith)
+  have : (List.map ((fun q : ℝ × ℝ × ℝ => q.1 * (q.2.1 / q.2.2)) ∘ fun p : ℝ × ℝ => ((1 : ℝ), wOf p.2, muInvOf p.1)) (xs.zip wts))
+      = (xs.zip wts).map (fun p => wOf p.2 / muInvOf p.1) := by
+    apply List.map_congr_left; intro p _; simp
+  rw [this, hq, h1, hs]; norm_num
+
+example : angleSum (([(-1/2 : ℝ), 1/2].zip [1, 1]).map (fun p => (1, wOf p.2, muInvOf p.1))) = 1 / 2 :=
+  quad_half _ _ rfl (by intro x hx; simp at hx; rcases hx with h | h <;> subst h <;> norm_num)
+    (by norm_num) (by norm_num)
+
+/-- the Planck function of the kernel is positive -/
+theorem planck_pos (k : PC ℝ) (hk : PCPos k) (nu t : ℝ) (hnu : 0 < nu) (ht : 0 < t) : 0 < planck k nu t :=
+  planck_pos' k hk nu t hnu ht
+
+/-- … and increasing in temperature -/
+theorem planck_mono_T (k : PC ℝ) (hk : PCPos k) (nu t1 t2 : ℝ) (hnu : 0 < nu) (ht1 : 0 < t1) (h12 : t1 ≤ t2) :
+    planck k nu t1 ≤ planck k nu t2 :=
+  planck_mono' k hk nu t1 t2 hnu ht1 h12
+
+example : PCPos ⟨3, 1, 1, 1, 1, 1⟩ := by unfold PCPos; norm_num
+
+/-- direct imaging: `direct = f · Rp² / (2 d²)` with `d = distance · parsec` -/
+theorem direct_scale (pi f rp dist pc : ℝ) (hpi : pi ≠ 0) (hd : dist * pc ≠ 0) :
+    direct pi f rp dist pc = f * (rp * rp) / (2 * ((dist * pc) * (dist * pc))) := by
+  unfold direct
+  field_simp
+  ring
+
+example : direct (3 : ℝ) 5 2 1 4 = 5 * (2 * 2) / (2 * ((1 * 4) * (1 * 4))) := direct_scale 3 5 2 1 4 (by norm_num) (by norm_num)
+
+/-! ### the layer recursion (one wavenumber, one angle) -/
+
+/-- `I = Σ_l c_l · B(T_l)/π + e₀ · B(T₀)/π` with every `c_l ≥ 0`, and the weights sum to
+    `1 + (exp(-τ₀/μ) - f(τ₀))`, which lies in `[1, 1 + exp(-10)]` (the clamp modelled exactly). -/
+theorem coeffs_sum (m : ℝ) (hm : 1 ≤ m) (rows : List (Row ℝ)) (t : ℝ) (k : Bool)
+    (hc : Chain t k rows) (hok : RowsOk rows) (hk : k = false → 10 ≤ t) :
+    (∀ r ∈ rows, 0 ≤ coeff m r) ∧
+    intensityRows 1 t m (rows.map (fun r => { r with b := 1 })) = 1 + (Real.exp ((-t) * m) - trans k t m) ∧
+    0 ≤ Real.exp ((-t) * m) - trans k t m ∧ Real.exp ((-t) * m) - trans k t m ≤ Real.exp (-10) := by
+  refine ⟨rowsOk_coeff_nonneg m (by linarith) rows hok, ?_, weight_total_bounds m hm t k hk⟩
+  rw [intensityRows_eq, List.map_map]
+  have : (List.map ((fun r : Row ℝ => r.b * coeff m r) ∘ fun r => { r with b := 1 }) rows) = rows.map (coeff m) := by
+    apply List.map_congr_left; intro r _; simp [coeff]
+  rw [this, one_mul, weight_total m rows t k hc]
+
+/-- isothermal rows (every `B(T_l)/π = b`): the intensity is `b` times the total weight; exactly `b` when the
+    bottom of the atmosphere is not clamped. -/
+theorem isothermal_exact (m b : ℝ) (rows : List (Row ℝ)) (t : ℝ) (hc : Chain t true rows)
+    (hb : ∀ r ∈ rows, r.b = b) : intensityRows b t m rows = b := by
+  rw [intensityRows_eq, sum_const m b rows hb, ← mul_add, weight_total m rows t true hc, trans_true]
+  ring
+
+/-- … and within a relative `exp(-10)` above `b` in general -/
+theorem isothermal_within (m b : ℝ) (hm : 1 ≤ m) (hb0 : 0 ≤ b) (rows : List (Row ℝ)) (t : ℝ) (k : Bool)
+    (hc : Chain t k rows) (hk : k = false → 10 ≤ t) (hb : ∀ r ∈ rows, r.b = b) :
+    b ≤ intensityRows b t m rows ∧ intensityRows b t m rows ≤ b * (1 + Real.exp (-10)) := by
+  rw [intensityRows_eq, sum_const m b rows hb, ← mul_add, weight_total m rows t k hc]
+  obtain ⟨h0, h1⟩ := weight_total_bounds m hm t k hk
+  constructor <;> nlinarith
+
+/-- any profile: the intensity lies between the coldest source function and `(1+exp(-10))` times the hottest -/
+theorem between_hot_cold (m b0 bmin bmax : ℝ) (hm : 1 ≤ m) (hmin : 0 ≤ bmin) (rows : List (Row ℝ)) (t : ℝ) (k : Bool)
+    (hc : Chain t k rows) (hok : RowsOk rows) (hk : k = false → 10 ≤ t)
+    (hb0 : bmin ≤ b0 ∧ b0 ≤ bmax) (hb : ∀ r ∈ rows, bmin ≤ r.b ∧ r.b ≤ bmax) :
+    bmin ≤ intensityRows b0 t m rows ∧ intensityRows b0 t m rows ≤ (1 + Real.exp (-10)) * bmax := by
+  have hcn := rowsOk_coeff_nonneg m (by linarith) rows hok
+  obtain ⟨hlo, hhi⟩ := sum_bounds m bmin bmax rows hcn hb
+  obtain ⟨h0, h1⟩ := weight_total_bounds m hm t k hk
+  have hw := weight_total m rows t k hc
+  have he : 0 ≤ Real.exp ((-t) * m) := Real.exp_nonneg _
+  have hmax : 0 ≤ bmax := le_trans hmin (le_trans hb0.1 hb0.2)
+  rw [intensityRows_eq]
+  constructor
+  · nlinarith [mul_nonneg (sub_nonneg.2 hb0.1) he]
+  · nlinarith [mul_nonneg (sub_nonneg.2 hb0.2) he]
+
+/-- NV: three layers, one wavenumber; the bottom layer's `dtau` (12) is clamped, the rest is not -/
+def nvRows : List (Row ℝ) :=
+  [⟨3, 11, false, 12, false⟩, ⟨2, 1, true, 11, false⟩, ⟨1, 0, true, 1, true⟩]
+
+example : Chain 12 false nvRows ∧ RowsOk nvRows ∧ (∀ r ∈ nvRows, (1 : ℝ) ≤ r.b ∧ r.b ≤ 3) := by
+  refine ⟨⟨rfl, rfl, rfl, rfl, rfl, rfl, rfl, rfl⟩, ?_, ?_⟩
+  · intro r hr
+    simp [nvRows] at hr
+    rcases hr with h | h | h <;> subst h <;> norm_num
+  · intro r hr
+    simp [nvRows] at hr
+    rcases hr with h | h | h <;> subst h <;> norm_num
+
+/-! ### the full model: the rows `evaluate_emission` builds -/
+
+/-- valid atmosphere for one column: it is one of the columns the clamp looks at, all inputs are non-negative,
+    its wavenumber is positive, temperatures lie in `[tmin, tmax]` with `0 < tmin`, at least one layer -/
+structure Valid (k : PC ℝ) (cols : List (Col ℝ)) (dz dens temps : List ℝ) (col : Col ℝ) (tmin tmax : ℝ) : Prop where
+  pc : PCPos k
+  mem : col ∈ cols
+  nonneg : ∀ c ∈ cols, InputsNonneg c.sig dz dens
+  nu : 0 < col.nu
+  tpos : 0 < tmin
+  trange : ∀ l, l < temps.length → tmin ≤ temps.getD l 0 ∧ temps.getD l 0 ≤ tmax
+  layers : temps ≠ []
+
+theorem surf_sound (cols : List (Col ℝ)) (dz dens temps : List ℝ) (col : Col ℝ) (hc : col ∈ cols)
+    (h : keepFrom cols dz dens temps.length 0 = false) : (10 : ℝ) ≤ surfTau dz dens temps col := by
+  unfold keepFrom at h
+  have h1 : ¬ vmin (cols.map (fun c => tauRange c.sig dz dens 0 temps.length)) < 10 := by simpa using h
+  exact le_trans (not_lt.1 h1)
+    (vmin_le _ _ (List.mem_map_of_mem (f := fun c : Col ℝ => tauRange c.sig dz dens 0 temps.length) hc))
+
+/-- the spectrum of any atmosphere lies between the Planck functions of its coldest and hottest temperature
+    (intensity per angle, `1 ≤ 1/μ`), the upper bound relaxed by the licensed `exp(-10)` -/
+theorem intensity_between (k : PC ℝ) (cols : List (Col ℝ)) (dz dens temps : List ℝ) (col : Col ℝ) (tmin tmax m : ℝ)
+    (hv : Valid k cols dz dens temps col tmin tmax) (hm : 1 ≤ m) :
+    planck k col.nu tmin / k.pi ≤ intensity k cols dz dens temps m col ∧
+    intensity k cols dz dens temps m col ≤ (1 + Real.exp (-10)) * (planck k col.nu tmax / k.pi) := by
+  have hpi : 0 < k.pi := hv.pc.1
+  have hlen : 0 < temps.length := List.length_pos_of_ne_nil hv.layers
+  have hB : ∀ l, l < temps.length → planck k col.nu tmin / k.pi ≤ planck k col.nu (temps.getD l 0) / k.pi ∧
+      planck k col.nu (temps.getD l 0) / k.pi ≤ planck k col.nu tmax / k.pi := by
+    intro l hl
+    obtain ⟨h1, h2⟩ := hv.trange l hl
+    exact ⟨div_le_div_of_nonneg_right (planck_mono' k hv.pc _ _ _ hv.nu hv.tpos h1) hpi.le,
+      div_le_div_of_nonneg_right (planck_mono' k hv.pc _ _ _ hv.nu (lt_of_lt_of_le hv.tpos h1) h2) hpi.le⟩
+  unfold intensity
+  apply between_hot_cold m _ _ _ hm (div_nonneg (planck_pos' k hv.pc _ _ hv.nu hv.tpos).le hpi.le) _ _ _
+    (rowsOf_chain k cols dz dens temps col) (rowsOf_ok k cols dz dens temps col hv.mem hv.nonneg)
+    (surf_sound cols dz dens temps col hv.mem) (hB 0 hlen)
+  intro r hr
+  obtain ⟨l, hl, rfl⟩ := mem_rowsOf k cols dz dens temps col r hr
+  exact hB l hl
+
+/-- isothermal atmosphere, bottom not clamped: the intensity at every angle is exactly `B(T)/π`,
+    whatever the composition -/
+theorem intensity_isothermal_exact (k : PC ℝ) (cols : List (Col ℝ)) (dz dens temps : List ℝ) (col : Col ℝ) (t m : ℝ)
+    (hT : ∀ l, l < temps.length → temps.getD l 0 = t) (hne : temps ≠ [])
+    (hk : keepFrom cols dz dens temps.length 0 = true) :
+    intensity k cols dz dens temps m col = planck k col.nu t / k.pi := by
+  have hlen : 0 < temps.length := List.length_pos_of_ne_nil hne
+  unfold intensity b0Of
+  rw [hT 0 hlen]
+  apply isothermal_exact
+  · have := rowsOf_chain k cols dz dens temps col
+    rw [hk] at this
+    exact this
+  · intro r hr
+    obtain ⟨l, hl, rfl⟩ := mem_rowsOf k cols dz dens temps col r hr
+    simp only [hT l hl]
+
+/-- … and in general (bottom clamped or not) within a relative `exp(-10)` above `B(T)/π` -/
+theorem intensity_isothermal_within (k : PC ℝ) (cols : List (Col ℝ)) (dz dens temps : List ℝ) (col : Col ℝ) (t m : ℝ)
+    (hv : Valid k cols dz dens temps col t t) (hm : 1 ≤ m) :
+    planck k col.nu t / k.pi ≤ intensity k cols dz dens temps m col ∧
+    intensity k cols dz dens temps m col ≤ planck k col.nu t / k.pi * (1 + Real.exp (-10)) := by
+  have h := intensity_between k cols dz dens temps col t t m hv hm
+  constructor
+  · exact h.1
+  · rw [mul_comm]; exact h.2
+
+/-- isothermal atmosphere: the eclipse spectrum is exactly the blackbody ratio `B(T)/B(T*) (Rp/Rs)²` -/
+theorem eclipse_isothermal_exact (k : PC ℝ) (cols : List (Col ℝ)) (dz dens temps : List ℝ) (col : Col ℝ)
+    (t ts rp rs : ℝ) (xs wts : List ℝ)
+    (hpi : k.pi ≠ 0)
+    (hT : ∀ l, l < temps.length → temps.getD l 0 = t) (hne : temps ≠ [])
+    (hk : keepFrom cols dz dens temps.length 0 = true)
+    (hlen : xs.length = wts.length) (hx : ∀ x ∈ xs, -1 < x)
+    (h0 : wts.sum = 2) (h1 : ((xs.zip wts).map (fun p => p.2 * p.1)).sum = 0) :
+    eclipse (fluxCol k k.pi cols dz dens temps xs wts col) (planck k col.nu ts) rp rs
+      = planck k col.nu t / planck k col.nu ts * ((rp / rs) * (rp / rs)) := by
+  unfold fluxCol
+  have hI : xs.map (fun x => intensity k cols dz dens temps (muInvOf x) col)
+      = xs.map (fun _ => planck k col.nu t / k.pi) := by
+    apply List.map_congr_left
+    intro x _
+    exact intensity_isothermal_exact k cols dz dens temps col t _ hT hne hk
+  rw [hI, fluxOf_const]
+  have hs : ((xs.zip wts).map (fun p => p.2)).sum = 2 := by
+    have : (xs.zip wts).map (fun p => p.2) = wts := by
+      have := List.map_snd_zip (l₁ := xs) (l₂ := wts) (by omega)
+      simpa using this
+    rw [this, h0]
+  rw [quad_sum (xs.zip wts) (by
+    intro p hp
+    have := hx p.1 (List.of_mem_zip hp).1
+    linarith), h1, hs]
+  unfold eclipse
+  congr 1
+  field_simp
+  ring
+
+/-- the licensed deviation: the clamped intensity differs from the documented (unclamped) integral by at most
+    `exp(-10)` times the source functions of the clamped layers -/
+theorem clamp_band (k : PC ℝ) (cols : List (Col ℝ)) (dz dens temps : List ℝ) (col : Col ℝ) (tmin tmax m : ℝ)
+    (hv : Valid k cols dz dens temps col tmin tmax) (hm : 1 ≤ m) :
+    |intensity k cols dz dens temps m col - intensityUncut k dz dens temps m col|
+      ≤ Real.exp (-10) * ((rowsOf k cols dz dens temps col).map (fun r => if r.keepD then 0 else r.b)).sum := by
+  unfold intensity intensityUncut
+  rw [rowsUncut_eq k cols]
+  apply clamp_band_rows _ _ _ hm _ (rowsOf_ok k cols dz dens temps col hv.mem hv.nonneg)
+  intro r hr
+  obtain ⟨l, hl, rfl⟩ := mem_rowsOf k cols dz dens temps col r hr
+  exact div_nonneg (planck_pos' k hv.pc _ _ hv.nu (lt_of_lt_of_le hv.tpos (hv.trange l hl).1)).le hv.pc.1.le
+
+/-- NV: two layers, two wavenumbers, one contribution of each kind; every hypothesis of `Valid` holds -/
+example : Valid ⟨3, 1, 1, 1, 1, 1⟩
+    [⟨1, [(Kind.lin, [1, 2]), (Kind.sq, [0, 1])]⟩, ⟨2, [(Kind.lin, [20, 3]), (Kind.sq, [1, 1])]⟩]
+    [1, 1] [1, 2] [5, 4] ⟨2, [(Kind.lin, [20, 3]), (Kind.sq, [1, 1])]⟩ 4 5 := by
+  refine ⟨by unfold PCPos; norm_num, by simp, ?_, by norm_num, by norm_num, ?_, by simp⟩
+  · intro c hc
+    simp at hc
+    rcases hc with rfl | rfl
+    · refine ⟨?_, ?_, ?_⟩
+      · intro c hc x hx
+        simp at hc
+        rcases hc with rfl | rfl <;> simp at hx <;> rcases hx with rfl | rfl <;> norm_num
+      · intro x hx; simp at hx; subst hx; norm_num
+      · intro x hx; simp at hx; rcases hx with rfl | rfl <;> norm_num
+    · refine ⟨?_, ?_, ?_⟩
+      · intro c hc x hx
+        simp at hc
+        rcases hc with rfl | rfl <;> simp at hx
+        · rcases hx with rfl | rfl <;> norm_num
+        · subst hx; norm_num
+      · intro x hx; simp at hx; subst hx; norm_num
+      · intro x hx; simp at hx; rcases hx with rfl | rfl <;> norm_num
+  · intro l hl
+    simp at hl
+    match l, hl with
+    | 0, _ => norm_num
+    | 1, _ => norm_num
+
+end Taurex.C02
